@@ -1,5 +1,5 @@
 (* C19 -- property theorems only; each closed by `exact` and followed by Print Assumptions. *)
-Require Import SF.Prelude SF.PySlice SF.Value SF.Quilt SF.BatchView Proofs.QuiltSeg Proofs.QuiltRefine Proofs.QuiltViews Proofs.BatchRefine.
+Require Import SF.Prelude SF.PySlice SF.Value SF.Quilt SF.BatchView Proofs.QuiltSeg Proofs.QuiltRefine Proofs.QuiltViews Proofs.QuiltBlock Proofs.BatchRefine.
 
 (* Quilt._extract (Boolean mask over the axis map, one mask-selected part per addressed member, parts
    concatenated) returns, for EVERY Bus layout (any number of non-empty members of any sizes), both label modes, any opposite-axis key and every order-preserving non-empty key
@@ -11,6 +11,15 @@ Theorem C19_quilt_extract_faithful : forall (A : Type) (q : quilt A) (sel opp : 
   res_map strip_name (M_extract_full q sel opp) = S_extract q sel opp.
 Proof. exact quilt_extract_faithful. Qed.
 Print Assumptions C19_quilt_extract_faithful.
+
+(* The same with the widest guard (dom_extract_block): the key may visit the members in any order, each at
+   most once, as long as the positions inside every member ascend -- e.g. [3;4;0;1] over members of 2+3 lines.
+   Outside this guard the unchanged code is wrong (Refuted/C19.v). *)
+Theorem C19_quilt_extract_block_faithful : forall (A : Type) (q : quilt A) (sel opp : key),
+  NoDup (map fst (q_bus A q)) -> dom_extract_block q sel = true ->
+  res_map strip_name (M_extract_full q sel opp) = S_extract q sel opp.
+Proof. exact quilt_extract_block_faithful. Qed.
+Print Assumptions C19_quilt_extract_block_faithful.
 
 (* The 1-D heart, for any label/item types: ascending in-range positions selected member by member
    through sub-masks are the addressed items of the concatenation, in key order, and the selection
